@@ -6,7 +6,8 @@
      client_base.py  parse_authn_request_response 803-811 (store only if assertion,
                      no EncryptedAssertion left, name_id)
      client.py       global_logout / do_logout / local_logout / is_logged_in /
-                     handle_logout_response / handle_logout_request
+                     handle_logout_response / handle_logout_request (as of 73294247; the
+                     behaviour before de5f1fed / 73294247 is kept as the *_v0 definitions)
    Subjects, issuers, session tokens and request ids are natural numbers (the
    harness maps NameIDs, entity ids, session infos and generated message ids to
    them).  Python dicts are insertion-ordered association lists.  The list object
@@ -219,10 +220,21 @@ Inductive op :=
 | LogoutRequest (named cur : subj) (i : issuer) (b : binding)
 | LocalLogout (s : subj).
 
-(* local_logout -> Population.remove_person -> Cache.delete: `del self._db[code(name_id)]` *)
+(* local_logout -> Population.remove_person -> Cache.delete: `del self._db[code(name_id)]`; then
+   (fix 73294247) every pending SLO entry of that subject is dropped from Saml2Client.state.
+   A KeyError from Cache.delete escapes before anything is dropped. *)
+Definition purge (s : subj) (p : list (rid * pentry)) : list (rid * pentry) :=
+  filter (fun rp => negb (p_subj (snd rp) =? s)%nat) p.
 Definition local_logout (st : state) (s : subj) : option state :=
   match lookup s (db st) with
   | None => None                                (* KeyError *)
+  | Some _ => Some {| now := now st; db := remove s (db st); pend := purge s (pend st); heap := heap st;
+                      next_rid := next_rid st; next_ref := next_ref st |}
+  end.
+(* before 73294247: the pending entries stayed *)
+Definition local_logout_v0 (st : state) (s : subj) : option state :=
+  match lookup s (db st) with
+  | None => None
   | Some _ => Some (set_db st (remove s (db st)))
   end.
 
@@ -287,6 +299,8 @@ Definition handle_logout_response (w : world) (ans : list soap_answer) (r : rid)
     match lookup r (pend st) with
     | None => (st, OExn KeyErr)
     | Some p =>
+        (* fix de5f1fed: issuer != status["entity_id"] => LogoutError before the entry is touched *)
+        if negb (p_entity p =? i)%nat then (st, OExn LogoutErr) else
         let st1 := set_pend st (remove r (pend st)) in
         let l := heap st1 (p_ref p) in
         if list_eqb l [i] then
@@ -387,3 +401,88 @@ Definition run (w : world) (t0 : Z) (h : list op) := run_from w (init t0) h.
 
 Definition final (w : world) (st : state) (h : list op) : state :=
   fold_left (fun s o => fst (step w s o)) h st.
+
+(* ================================================================ the behaviour BEFORE the fixes de5f1fed
+   (party check) and 73294247 (purge), kept for the refutation theorems:
+   party = false : handle_logout_response does not compare the issuer with the addressee;
+   prg   = false : local_logout leaves the subject's pending requests in Saml2Client.state.
+   `step_v0 true true` is `step`. *)
+Section V0.
+  Variables (party prg : bool).
+  Definition local_logout_x (st : state) (s : subj) : option state :=
+    if prg then local_logout st s else local_logout_v0 st s.
+
+  Definition do_logout_v0 (w : world) (ans : list soap_answer) (s : subj) (ref : nat) (dl : option Z) (st : state)
+    : state * out :=
+    if deadline_passed (now st) dl then
+      match local_logout_x st s with
+      | None => (st, OExn KeyErr)
+      | Some st' => (st', OTimeout)
+      end
+    else
+      let l := heap st ref in
+      match logout_loop w ans s ref dl l st l [] with
+      | (st', inl e) => (st', OExn e)
+      | (st', inr ([], acc)) => (st', OSent acc)
+      | (st', inr (_ :: _, _)) => (st', OExn LogoutErr)
+      end.
+
+  Definition global_logout_v0 (w : world) (ans : list soap_answer) (s : subj) (dl : option Z) (st : state)
+    : state * out :=
+    match lookup s (db st) with
+    | None => (st, OExn KeyErr)
+    | Some l => let ref := next_ref st in do_logout_v0 w ans s ref dl (alloc st (keys l))
+    end.
+
+  Definition handle_logout_response_v0 (w : world) (ans : list soap_answer) (r : rid) (i : issuer) (success : bool)
+             (st : state) : state * out :=
+    if negb success then (st, OExn StatusErr)
+    else
+      match lookup r (pend st) with
+      | None => (st, OExn KeyErr)
+      | Some p =>
+          if party && negb (p_entity p =? i)%nat then (st, OExn LogoutErr) else
+          let st1 := set_pend st (remove r (pend st)) in
+          let l := heap st1 (p_ref p) in
+          if list_eqb l [i] then
+            match local_logout_x st1 (p_subj p) with
+            | None => (st1, OExn KeyErr)
+            | Some st2 => (st2, ODone)
+            end
+          else if mem i l then
+            do_logout_v0 w ans (p_subj p) (p_ref p) (p_expire p) (set_heap st1 (p_ref p) (remove_first i l))
+          else (st1, OExn ValueErr)
+      end.
+
+  Definition handle_logout_request_v0 (w : world) (named cur : subj) (i : issuer) (b : binding) (st : state)
+    : state * out :=
+    let (st', status) :=
+      if (named =? cur)%nat then
+        match local_logout_x st cur with
+        | Some st' => (st', LSuccess)
+        | None => (st, LDenied)
+        end
+      else (st, LUnknownPrincipal) in
+    if existsb (fun rb => binding_eqb rb SOAP || bmem rb (supported w i)) (response_bindings b)
+    then (st', OStatus status) else (st', OExn SamlErr).
+
+  Definition step_v0 (w : world) (st : state) (o : op) : state * out :=
+    match o with
+    | StartLogout s dl ans => global_logout_v0 w ans s dl st
+    | LogoutResponse r i success ans => handle_logout_response_v0 w ans r i success st
+    | LogoutRequest named cur i b => handle_logout_request_v0 w named cur i b st
+    | LocalLogout s =>
+        match local_logout_x st s with
+        | Some st' => (st', OBool true)
+        | None => (st, OExn KeyErr)
+        end
+    | _ => step w st o
+    end.
+
+  Fixpoint run_from_v0 (w : world) (st : state) (h : list op) : list (op * out * view) :=
+    match h with
+    | [] => []
+    | o :: r => let (st', ou) := step_v0 w st o in (o, ou, view_of st') :: run_from_v0 w st' r
+    end.
+  Definition run_v0 (w : world) (t0 : Z) (h : list op) := run_from_v0 w (init t0) h.
+End V0.
